@@ -383,6 +383,12 @@ def enabled(ctx: Ctx) -> list:
         return calls
     top = ctx.top
     depth = len(ctx.frames)
+    # late declarations: made (forced step) once the body of the last listed function is open, so that the
+    # declaration comes *after* its caller in the module's child order (a forward reference for every consumer)
+    if top.kind == "func" and depth == 1 and len([f for f in ctx.funcs if f.get("b") is not None]) == len(sc.funcs):
+        for d in sc.extra.get("late_decls", ()):
+            if not any(f["name"] == d[0] for f in ctx.funcs):
+                return [["decl", d[0]]]
     if top.kind in ("dfg", "func", "case", "loop", "block"):
         for name in sc.ops:
             if name in ("Not",):
@@ -668,7 +674,7 @@ def apply(ctx: Ctx, call) -> None:
             ctx.features.add("polymorphic-function")
         return
     if kind == "decl":
-        d = next(x for x in sc.extra["decls"] if x[0] == call[1])
+        d = next(x for x in (*sc.extra.get("decls", ()), *sc.extra.get("late_decls", ())) if x[0] == call[1])
         poly = d[1]
         node = ctx.root.declare_function(d[0], T.build_type(poly))
         fd = {"name": d[0], "node": node, "in": poly[2][1], "out": poly[2][2], "b": None, "open": False, "params": poly[1], "insts": list(d[2])}
@@ -1055,7 +1061,7 @@ def _close_block(ctx: Ctx, call):
 
 
 def complete(ctx: Ctx) -> bool:
-    return not ctx.frames and (ctx.sc.root != "module" or len(ctx.funcs) == len(ctx.sc.funcs) + len(ctx.sc.extra.get("decls", ())))
+    return not ctx.frames and (ctx.sc.root != "module" or len(ctx.funcs) == len(ctx.sc.funcs) + len(ctx.sc.extra.get("decls", ())) + len(ctx.sc.extra.get("late_decls", ())))
 
 
 def run(sc: Scenario, program, observe=False) -> Ctx:
